@@ -91,12 +91,25 @@ def result_digest(res, sFileName, scrub):
     return hashlib.sha1(blob.encode("utf-8", "replace")).hexdigest()[:16]
 
 
+def _body(fn):
+    try:
+        with open(fn, "rb") as f:
+            return hashlib.sha1(f.read()).hexdigest()[:16]
+    except OSError:
+        return ""
+
+
 _STATE = {"seq": 0, "orig": None, "taskdir": None, "scrub": []}
 
 
 def traced(commandLineArguments, oConfig, tIndexFileName):
     """module-level (picklable by reference for multiprocessing.Pool); forked workers inherit _STATE"""
     _STATE["seq"] += 1
+    _STATE["ord"] = _STATE.get("ord", 0) + 1
+    body0 = _body(tIndexFileName[1])
+    # B: the task is entered (per-process order number `ord`); E (in finally): it returned
+    with open(os.path.join(_STATE["taskdir"], "tasks_%d.jsonl" % os.getpid()), "a") as f:
+        f.write(json.dumps({"t": "B", "pid": os.getpid(), "ord": _STATE["ord"], "seq": _STATE["seq"], "index": tIndexFileName[0]}) + "\n")
     before, n = leak_digest((commandLineArguments, oConfig))
     res = None
     err = ""
@@ -108,7 +121,9 @@ def traced(commandLineArguments, oConfig, tIndexFileName):
         raise
     finally:
         after, _ = leak_digest((commandLineArguments, oConfig))
-        rec = {"pid": os.getpid(), "seq": _STATE["seq"], "index": tIndexFileName[0], "file": os.path.basename(str(tIndexFileName[1])), "leakBefore": before, "leakAfter": after,
+        _STATE["ord"] += 1
+        rec = {"t": "E", "ord": _STATE["ord"], "stop": bool(res[5]) if res is not None else False, "wrote": _body(tIndexFileName[1]) != body0, "bodyAfter": _body(tIndexFileName[1]),
+               "pid": os.getpid(), "seq": _STATE["seq"], "index": tIndexFileName[0], "file": os.path.basename(str(tIndexFileName[1])), "leakBefore": before, "leakAfter": after,
                "result": result_digest(res, tIndexFileName[1], _STATE["scrub"]) if res is not None else "raised:" + err, "status": bool(res[0]) if res is not None else True, "entries": n}
         with open(os.path.join(_STATE["taskdir"], "tasks_%d.jsonl" % os.getpid()), "a") as f:
             f.write(json.dumps(rec) + "\n")
